@@ -350,6 +350,10 @@ var watchdogOnce sync.Once
 
 func startWatchdog(r *Rec) {
 	watchdogOnce.Do(func() {
+		// self-test hook of the driver's hang confirmation: a tiny cap for the main run only
+		if ms, err := strconv.Atoi(os.Getenv("VERIF_TEST_HANGCAP_MS")); err == nil && ms > 0 && os.Getenv("VERIF_REPLAY") == "" {
+			hangCap = time.Duration(ms) * time.Millisecond
+		}
 		go func() {
 			for {
 				time.Sleep(500 * time.Millisecond)
